@@ -73,3 +73,23 @@ def structural(find_def):
             out.append(("type-tables/%s/%s-is-written-as-a-column-type-read-back-as-%s" % (state, t, t), back == t,
                         "typ2column_type[%r] == %r and column_type2typ[%r] == %r" % (t, col, col, back)))
     return out
+
+
+# --------------------------------------------------------------------------------------------------------------
+# _handle_column_keywords, the step that writes `default=`: the value emitted is the default it was HANDED (an AST node as it is,
+# anything else through set_value) -- the block does not re-bind `default`, and appends exactly one keyword.  The three
+# emitters share this helper, and the parser (column_parse_kwarg) reads back only what set_value / the callers' nodes produce;
+# a default re-interpreted here (a dict literal parsed out of the text '{}') cannot be read back by any of the three parsers.
+MH = "cdd.sqlalchemy.utils.emit_utils"
+CONTRACTS.append(
+    Contract(
+        MH + ":_handle_column_keywords#default-emitted-as-given",
+        src=MH + ":_handle_column_keywords",
+        block=lambda txt: txt.startswith("if has_default:"),
+        params={"has_default": "bool", "default": "opaque", "keywords": "list:seq:opaque", "_param": "opaque"},
+        ensures=[
+            "same(default, old(default))",
+            "n_count(keywords) == n_count(old(keywords)) + ite(has_default, 1, 0)",
+        ],
+    )
+)
